@@ -13,6 +13,7 @@
   tickets is stated as Q1–Q5 at the top of the model (properties C01/C02).
 -/
 import Babylon.Exec.InvAll
+import Babylon.Exec.NoStuck
 import Babylon.Exec.SimpleLemmas
 import Babylon.Gen.Exec
 
@@ -363,19 +364,14 @@ theorem exec_local_push_never_blocks (c : Cfg) (hc : c.WF) (s : State) (hr : Rea
     have : (step c s w .publish).isSome = true := by simp [step, hpc, hown, hfree, hst]
     exact Option.isSome_iff_exists.mp this
 
-/-- **exec_no_stuck_partial.**  Who waits for whom, in every reachable state: a blocked global pop
-with ticket `i` waits for a push that either nobody has started (`i` beyond the push tickets handed
-out) or that is held by a thread; a blocked global push with ticket `p` waits for pop ticket
-`p - slots`, which is either not handed out yet or held by a worker that is itself waiting; a local
-push never blocks (`exec_local_push_never_blocks`); `stop()` pushes its markers only after the balance
-thread has returned and joins only threads that are not waiting for `stop()`.
-MISSING for the full statement «with `stop()` called, no reachable state has every thread of the
-pool blocked unless every live worker is itself blocked submitting a child into the full global
-queue»: the counting argument that the number of unreceived STOP markers equals the number of live
-workers (so that no worker waits on an empty global queue while `stop()` waits for it) and the
-well-founded descent along `p ↦ p - slots`; the stall classification of every replayed run
-(`stallByDesign` in lean/Drivers/C07.lean) checks the full statement on the real code. -/
-theorem exec_no_stuck_partial (c : Cfg) (hc : c.WF) (s : State) (hr : Reach c s) :
+/-- **exec_wait_for.**  Who waits for whom, in every reachable state: a blocked global pop with
+ticket `i` waits for a push that either nobody has started (`i` beyond the push tickets handed out)
+or that is held by a thread; a blocked global push with ticket `p` waits for pop ticket `p - slots`,
+which is either not handed out yet or held by a worker that is itself waiting; a local push never
+blocks (`exec_local_push_never_blocks`); `stop()` pushes its markers only after the balance thread has
+returned.  (Building block of `exec_no_stuck`, kept because the replay driver's stall classification
+`stallByDesign` in lean/Drivers/C07.lean is phrased in these terms.) -/
+theorem exec_wait_for (c : Cfg) (hc : c.WF) (s : State) (hr : Reach c s) :
     (∀ w i, s.pc w = .wGWait i → i < s.g.popIdx ∧
       (s.g.ready i = true ∨ s.g.cells.length ≤ i ∨ s.g.stAt i = some .reserved)) ∧
     (∀ t p k, s.pc t = .gPub p k → s.g.stAt p = some .reserved ∧
@@ -404,6 +400,24 @@ theorem exec_no_stuck_partial (c : Cfg) (hc : c.WF) (s : State) (hr : Reach c s)
         rcases J.g1 (p - c.gslots) (by omega) with h | h
         · exfalso; apply hf; rw [Q.slotFree_iff]; exact Or.inr h
         · exact h
+
+/-- **exec_no_stuck** (repaired balance thread, 4e1dfd6).  While `stop()` is in progress — some thread
+is between the entry of `stop()` and its return — no reachable state of a pool with at least one worker
+has all threads blocked, except by design: either some thread that is inside the pool's code (not an
+outside thread between calls, not a finished thread) has an enabled step, or there is a live worker and
+every live worker is blocked, from inside a task, pushing a child into the full global queue
+(`ByDesign`; the documented way to wedge a bounded pool, reached e.g. by one worker whose task submits
+more children than the global queue holds).  In particular `stop()` never waits for a worker that waits
+on an empty global queue, the balance thread never holds anything a worker waits for, and a worker never
+waits for a slot of its local queue.  The proof (Babylon/Exec/NoStuck.lean) classifies the four
+blocking program counters, shows by well-founded descent along `p ↦ p - slots` that a blocked push and
+a blocked pop cannot coexist when nothing moves, and counts STOP markers (pushed = one per worker,
+received = workers that have left the loop) to rule out a worker starving while `stop()` joins it. -/
+theorem exec_no_stuck (c : Cfg) (hc : c.WF) (hw : c.workers ≠ []) (s : State) (hr : Reach c s)
+    (T : Nat) (hT : (s.pc T).role = .stopper) :
+    (∃ t, s.pc t ≠ .idle ∧ s.pc t ≠ .exited ∧ Enabled c s t) ∨ ByDesign c s := by
+  obtain ⟨A, K, N⟩ := Inv7.reachable hc hr
+  exact no_stuck_inv hc hw A K N T hT
 
 /-! ## Non-vacuity: concrete reachable states satisfying the hypotheses -/
 
@@ -462,6 +476,34 @@ example : ∃ s, Reach demoCfg2 s ∧ s.stopReturned = true ∧ s.known 1 = true
     rw [hs] at h
     simp only [Option.map_some, Option.some.injEq, Bool.and_eq_true, beq_iff_eq, Bool.not_eq_true'] at h
     exact ⟨s, reach_runTrace demoRun2 (Reachable.base rfl) hs, h.1.1.1.1.1, h.1.1.1.1.2, h.1.1.1.2, h.1.1.2, h.1.2, h.2⟩
+
+/-- task 0 submits three children into the global queue (2 slots, nobody pops) while `stop()` begins:
+the only worker is blocked on the third push, `stop()` on its marker behind it -/
+def demoRun3 : List (Nat × Lbl) :=
+  [(0, .submit 0 false), (0, .gPushTk 0), (0, .publish), (0, .accept 0),
+   (1, .ldPop 0 0), (1, .ldPop 0 0), (1, .gPopTk 0), (1, .receive), (1, .run 0 true),
+   (1, .submit 1 true), (1, .gPushTk 1), (1, .publish), (1, .accept 1),
+   (1, .submit 2 true), (1, .gPushTk 2), (1, .publish), (1, .accept 2),
+   (1, .submit 3 true), (1, .gPushTk 3),
+   (0, .stopBegin), (0, .ldRun true), (0, .stRun), (0, .gPushTk 4)]
+
+/-- the hypotheses of `exec_no_stuck` are satisfiable and its second disjunct is needed: a reachable
+state with `stop()` in progress that is wedged by design -/
+example : ∃ s, Reach demoCfg s ∧ (s.pc 0).role = .stopper ∧ ByDesign demoCfg s := by
+  have h : (runTrace demoCfg (State.init demoCfg) demoRun3).map
+      (fun s => decide ((s.pc 0).role = .stopper) && decide (s.pc 1 = .gPub 3 (.rRet 0 3)) &&
+        !(s.g.slotFree demoCfg.gslots 3)) = some true := by
+    decide
+  cases hs : runTrace demoCfg (State.init demoCfg) demoRun3 with
+  | none => rw [hs] at h; cases h
+  | some s =>
+    rw [hs] at h
+    simp only [Option.map_some, Option.some.injEq, Bool.and_eq_true, decide_eq_true_eq, Bool.not_eq_true'] at h
+    obtain ⟨⟨h1, h2⟩, h3⟩ := h
+    refine ⟨s, reach_runTrace demoRun3 (Reachable.base rfl) hs, h1, ⟨1, by simp [demoCfg], by rw [h2]; simp⟩, ?_⟩
+    intro w hw _
+    simp [demoCfg] at hw; subst hw
+    exact ⟨3, 0, 3, h2, h3⟩
 
 /-! ## The two small executors -/
 
